@@ -14,6 +14,11 @@ def run(chk):
     _alt.binding(chk, ['wintering'])
     _alt.explore(chk, [chk.pid])
     ac.timing_theorems(chk, TIMING)
+    # the wintering polls decide on the TemperatureReader's windows: refinement theorems + differential of the real readers
+    from checks import reader_common
+    from vlib import lean as _lr
+    _lr.check_theorems(chk, "Poupool.Properties.Reader", ["Poupool.ReaderProps." + t for t in ("window_spec", "window_bounded", "missing_reading_is_local", "fresh_reading_is_seen", "mean_within_bounds", "mean_none_iff_no_valid_reading")])
+    reader_common.correspondence(chk)
 
 
 def search(chk):
